@@ -814,7 +814,8 @@ class Differ:
             return mk("/", da, mk("+", ONE, mk("*", a, a)))
         if op == "erf":
             # 2/sqrt(pi) exp(-a^2): the constant is the atom TWO_OVER_SQRTPI
-            return mk("*", mk("*", TWO_OVER_SQRTPI, fn1("exp", neg(mk("*", a, a)))), da)
+            # 2/sqrt(pi) as the double nearest to it (what float code uses); error 1e-16 relative
+            return mk("*", mk("*", const(Fraction(2.0 / math.sqrt(math.pi))), fn1("exp", neg(mk("*", a, a)))), da)
         if op == "abs":
             raise NotImplementedError("abs is resolved by forking, never kept as node")
         raise NotImplementedError(op)
@@ -829,3 +830,29 @@ def diff(n: Node, x, differ=None) -> Node:
     if isinstance(x, Sym):
         x = x.n
     return (differ or Differ()).d(n, x)
+
+
+def substitute(roots, mapping: dict) -> list:
+    """rebuild nodes with variables (or any nodes) replaced: mapping {node: node}"""
+    memo = {k.id: v for k, v in mapping.items()}
+    for m in topo(roots):
+        if m.id in memo:
+            continue
+        op = m.op
+        if op in ("c", "v", "true", "false"):
+            memo[m.id] = m
+        elif op in ("+", "-", "*", "/"):
+            memo[m.id] = mk(op, memo[m.args[0].id], memo[m.args[1].id])
+        elif op == "root":
+            memo[m.id] = root(memo[m.args[0].id], m.args[1])
+        elif op == "uf":
+            memo[m.id] = Node("uf", (m.args[0], m.args[1], tuple(memo[a.id] for a in m.args[2])))
+        elif op in ("lt", "le", "gt", "ge", "eq", "ne"):
+            memo[m.id] = cmp(op, memo[m.args[0].id], memo[m.args[1].id])
+        elif op in ("and", "or"):
+            memo[m.id] = bmk(op, memo[m.args[0].id], memo[m.args[1].id])
+        elif op == "not":
+            memo[m.id] = bnot(memo[m.args[0].id])
+        else:
+            memo[m.id] = fn1(op, memo[m.args[0].id])
+    return [memo[r.id] for r in roots]
